@@ -18,6 +18,7 @@ EXPLANATION = (
 
 def run(tier):
     cr = CheckRun("C17", tier, "other", EXPLANATION, "DESIGN §4 C17")
+    cr.contracts(["contracts.c15"])  # name resolution inside inlined library bodies (parameter shadows an outer name)
     cr.ext_obligations.extend(library_obligations(60000 if tier == "quick" else 300000))
     cr.trusted.append("S3 (spec/facto_sem.py) as the meaning of the library text; spec/libdocs.py as the meaning of the documentation")
     progs = gen.c17_library_scope(tier)
